@@ -77,10 +77,13 @@ def stepOk (op : Op) (v : Val) (s : St) : St :=
   | .drop i => setAt s i none
 
 /-- The call panicked: every handle keeps its value; a handle that was moved into the call
-(`unsplit`'s argument) is gone. -/
+(`unsplit`'s argument, once both operands are live BytesMut handles) is gone. -/
 def stepPanic (op : Op) (s : St) : St :=
   match op with
-  | .unsplit _ j => setAt s j none
+  | .unsplit i j =>
+    match get s i, get s j with
+    | some a, some b => if i ≠ j ∧ a.kind = .mut ∧ b.kind = .mut then setAt s j none else s
+    | _, _ => s
   | _ => s
 
 end Spec
